@@ -138,6 +138,13 @@ fn blk(ctx: &mut Ctx) {
             if j + cb + 1 < n {
                 ctx.st.count("cfb8.resync-observed");
             }
+            // "garbles the following block-size bytes": while byte j sits in the register the
+            // keystream byte is first_byte(E(S)) of a *different* S; with at least 8 such bytes
+            // the chance that none of them changes is 2^-64 for a bijective E
+            let hi = (j + cb + 1).min(n);
+            if hi - (j + 1) >= 8 && diff[j + 1..hi].iter().all(|&x| x == 0) {
+                return fail(ctx, format!("none of the {} plaintext bytes after byte j changed: the altered ciphertext byte never entered the shift register", hi - j - 1));
+            }
         }
         Family::OfbBlk => {
             if blk(j) != &delta[..] || (j + 1..n).any(|i| !is_zero(blk(i))) {
@@ -195,7 +202,7 @@ fn stream(ctx: &mut Ctx) {
     let name = format!("{}/stream", d.flavor.name());
     ctx.subject(&name);
     let b = ctx.cfg.bs;
-    let (iv, _) = wl::ctr_iv(&mut ctx.rng, d.flavor, b);
+    let (iv, _) = stream_iv(ctx, d.flavor, b);
     let (len, rc) = wl::nbytes(&mut ctx.rng, b, ctx.cfg.par, ctx.tier);
     let len = len.max(1);
     let (data, _) = wl::data(&mut ctx.rng, len);
